@@ -1,5 +1,6 @@
 import TensorModel.Proofs.Kernels
 import TensorModel.Proofs.IterPaths
+import TensorModel.Props.C13
 /-!
   C12 — unary functions and mapped functions.
   Property theorems only; helper lemmas live in `TensorModel/Proofs/Kernels.lean`
@@ -311,6 +312,25 @@ example := engUnary_reuse_alias AW.st (fun x => .app1 "g" x) floatTypes floatTyp
   ⟨rfl, by decide, by decide, rfl⟩ (by decide) (by decide) (by decide) rfl rfl (by decide) (by decide) (by decide) (by decide)
   ⟨_, rfl, by decide⟩ ⟨_, rfl, by decide⟩
 
+/-- **Coordinate-wise, end to end** (safe mode, an operand that needs an iterator): for a well-formed operand (C13: its
+    pattern covers its window and addresses distinct cells) the result is a clone with the operand's own access pattern
+    in which, **for every coordinate `c`**, the cell addressed at `c` holds `g` of the operand's element at `c`. -/
+theorem engUnary_safe_iter_coordinatewise (st : St) (g : UnF) (tc kt : List String) (strict : Bool) (a : Dense)
+    (htc : a.dt ∈ tc) (hk : a.dt ∈ kt) (hia : a.requiresIterator = true) (hm : a.mask = none)
+    (hca : C13.Covers a.ap (a.win.len : Int)) (hinj : InjectivePat a.ap.shape a.ap.strides)
+    (hA : InBuf st a.win.buf a.win.off a.win.len) :
+    ∃ out c, engUnary st g tc kt strict a {} = .ok out ∧ out.ret = .fresh c ∧ c.ap = { a.ap with fin := true } ∧
+      (∀ co ∈ allCoords a.ap.shape, ∃ x, cell st a.win.buf (a.win.off + (dot co a.ap.strides).toNat) = some x ∧
+        cell out.st c.win.buf (dot co a.ap.strides).toNat = some (g x)) ∧
+      (∀ b' k, b' < st.heap.size → cell out.st b' k = cell st b' k) := by
+  obtain ⟨hoa, hnd⟩ := C13.wf_offsets a a.win.len hca hinj
+  obtain ⟨out, c, h, hret, hap, _, _, _, _, hv, _, hfr⟩ := engUnary_safe_iter st g tc kt strict a htc hk hia hm hoa hnd hA
+  refine ⟨out, c, h, hret, hap, ?_, hfr⟩
+  have eoa : a.offsets = (allCoords a.ap.shape).map (fun c => dot c a.ap.strides) := by
+    unfold Dense.offsets; exact offsets_rowmajor a.ap hca.1 hca.2.2.1
+  intro co hco
+  exact hv (dot co a.ap.strides) (by rw [eoa]; exact List.mem_map.mpr ⟨co, hco, rfl⟩)
+
 /-! ## non-vacuity -/
 namespace Ex
 def st : St := { heap := #[#[.src 0 0, .src 0 1, .src 0 2, .src 0 3], #[.src 1 0, .src 1 1, .src 1 2, .src 1 3]] }
@@ -333,6 +353,13 @@ example := engMap_reuse st g ["f64"] ta tr (by decide) (by decide) (by decide) f
 example := engMap_reuse st g ["f64"] ta ta (by decide) (by decide) (by decide)
   ⟨rfl, by decide, by decide, rfl⟩ rfl rfl (by decide) inA inA
 example := engMap_incr st g ["f64"] ta tr (by decide) (by decide) (by decide) (by decide) fits rfl rfl rfl (by decide) inA inR
+-- the end-to-end form on a lazily transposed (2,2) tensor
+def taT : Dense := { ap := { shape := [2, 2], strides := [1, 2] }, old := some { shape := [2, 2], strides := [2, 1] }, tw := some [1, 0],
+                     win := ⟨0, 0, 4, 4⟩, dt := "f64" }
+example := engUnary_safe_iter_coordinatewise st g floatTypes floatTypes true taT (by decide) (by decide) (by decide) rfl
+  ⟨rfl, by decide, by decide, by decide⟩ (by
+    have h := C13.T_distinct [1, 0] [2, 2] [2, 1] (by decide) rfl (C13.default_distinct [2, 2])
+    simpa [gatherI, taT] using h) inA
 -- iterator path: a (1,3) view with a gap after every element (offsets 0, 2, 4 of a 5-cell window)
 def st6 : St := { heap := #[#[.src 0 0, .src 0 1, .src 0 2, .src 0 3, .src 0 4, .src 0 5]] }
 def tv : Dense := { ap := { shape := [1, 3], strides := [6, 2], o := { nonContig := true } }, win := ⟨0, 0, 5, 6⟩,
